@@ -59,7 +59,7 @@ func activeKnown(ids []string) []string {
 		// listed class is on: a witness shows its own root cause, not a neighbour's
 		active := harness.Known(id)
 		if witnessFor != "" {
-			active = id != witnessFor && harness.KnownListed(id)
+			active = id != witnessFor && hasWitness(id)
 		}
 		if !seen[id] && active {
 			out = append(out, id)
